@@ -1,5 +1,5 @@
 (* C15: evaluation of the model on recorded cases (correspondence check). *)
-From CJ Require Import Common.Base C15.Model C15.ModelName C15.ModelObf C15.ModelAny.
+From CJ Require Import Common.Base C15.Model C15.ModelName C15.ModelObf C15.ModelAny C15.ModelDns.
 
 Definition obs := (bool * bytes * bool * bytes)%type.
 
@@ -49,11 +49,14 @@ Definition model_name_rt (n : name) : name_rt_obs :=
   | Err e => (name_err_code e, [], 0, [], 0)
   | Panic => (panic_code, [], 0, [], 0)
   | Ok n' =>
-    let w := fst (write_name [] 0 n') in
-    match read_name w 0 with
-    | Ok (n2, p) => (0, w, 0, n2, p)
-    | Err e => (0, w, rd_err_code e, [], 0)
-    | Panic => (0, w, panic_code, [], 0)
+    match write_name [] 0 n' with
+    | None => (0, [], panic_code, [], 0)
+    | Some (w, _) =>
+      match read_name w 0 with
+      | Ok (n2, p) => (0, w, 0, n2, p)
+      | Err e => (0, w, rd_err_code e, [], 0)
+      | Panic => (0, w, panic_code, [], 0)
+      end
     end
   end.
 Definition name_rt_eqb (a b : name_rt_obs) : bool :=
@@ -153,6 +156,53 @@ Definition chk_any (nilsrc : bool) (kind dst : N) (url : string) (fields : list 
   | Panic => false
   end.
 
+(* ---- DNS messages ---- *)
+Definition cq := (name * N * N)%type.
+Definition crr := (name * N * N * N * bspec)%type.
+Definition cmsg := (N * N * list cq * list crr * list crr * list crr)%type.
+Definition to_q (q : cq) : question := let '(n, t, c) := q in {| q_name := n; q_type := t; q_class := c |}.
+Definition to_rr (r : crr) : rr := let '(n, t, c, ttl, d) := r in {| rr_name := n; rr_type := t; rr_class := c; rr_ttl := ttl; rr_data := bspec_val d |}.
+Definition to_msg (m : cmsg) : message :=
+  let '(id, fl, q, an, ns, ar) := m in
+  {| m_id := id; m_flags := fl; m_q := map to_q q; m_an := map to_rr an; m_ns := map to_rr ns; m_ar := map to_rr ar |}.
+Definition q_matches (a : question) (b : cq) : bool :=
+  let '(n, t, c) := b in name_eqb (q_name a) n && (q_type a =? t) && (q_class a =? c).
+Definition rr_matches (a : rr) (b : crr) : bool :=
+  let '(n, t, c, ttl, d) := b in
+  name_eqb (rr_name a) n && (rr_type a =? t) && (rr_class a =? c) && (rr_ttl a =? ttl) && bspec_matches d (rr_data a).
+Fixpoint all2 {A B} (f : A -> B -> bool) (a : list A) (b : list B) : bool :=
+  match a, b with
+  | [], [] => true
+  | x :: a', y :: b' => f x y && all2 f a' b'
+  | _, _ => false
+  end.
+Definition msg_matches (a : message) (b : cmsg) : bool :=
+  let '(id, fl, q, an, ns, ar) := b in
+  (m_id a =? id) && (m_flags a =? fl) && all2 q_matches (m_q a) q && all2 rr_matches (m_an a) an
+  && all2 rr_matches (m_ns a) ns && all2 rr_matches (m_ar a) ar.
+Definition empty_cmsg : cmsg := (0, 0, [], [], [], []).
+
+(* code1: 0 ok, 1 overflow, 99 panic; code2: reader error class *)
+Definition chk_msg_rt (m : cmsg) (code1 : N) (out : bspec) (code2 : N) (back : cmsg) : bool :=
+  match wire_message (to_msg m) with
+  | Panic => code1 =? panic_code
+  | Err EOverflow => code1 =? 1
+  | Ok w =>
+    (code1 =? 0) && bspec_matches out w &&
+    match read_message w with
+    | Ok m2 => (code2 =? 0) && msg_matches m2 back
+    | Err e => code2 =? rd_err_code e
+    | Panic => false
+    end
+  end.
+
+Definition chk_msg_dec (d : bytes) (code : N) (back : cmsg) : bool :=
+  match read_message d with
+  | Ok m2 => (code =? 0) && msg_matches m2 back
+  | Err e => code =? rd_err_code e
+  | Panic => false
+  end.
+
 Inductive vcase :=
 | CFmt (op : N) (d : bspec) (o : obs_spec)
 | CNameRt (n : name) (o : name_rt_obs)
@@ -162,7 +212,9 @@ Inductive vcase :=
 | CSendName (e : bytes) (dom : name) (code : N) (qname : name)
 | CObf (v : N) (t : bytes) (publen : N) (ok : bool) (c1 : bytes) (ok2 : bool) (rev : bytes)
 | CReveal (v : N) (c : bytes) (ok : bool) (out : bytes)
-| CAny (nilsrc : bool) (kind dst : N) (url : string) (fields : list N) (ok2 : bool) (fout : list N) (url_after : string).
+| CAny (nilsrc : bool) (kind dst : N) (url : string) (fields : list N) (ok2 : bool) (fout : list N) (url_after : string)
+| CMsgRt (m : cmsg) (code1 : N) (out : bspec) (code2 : N) (back : cmsg)
+| CMsgDec (d : bytes) (code : N) (back : cmsg).
 
 Definition chk (c : vcase) : bool :=
   match c with
@@ -175,4 +227,6 @@ Definition chk (c : vcase) : bool :=
   | CObf v t pl ok c1 ok2 rev => chk_obf v t pl ok c1 ok2 rev
   | CReveal v c ok out => chk_reveal v c ok out
   | CAny nl k d u f ok2 fo ua => chk_any nl k d u f ok2 fo ua
+  | CMsgRt m c1 o c2 b => chk_msg_rt m c1 o c2 b
+  | CMsgDec d c b => chk_msg_dec d c b
   end.
